@@ -1,6 +1,7 @@
 package props
 
 import (
+	"go/constant"
 	"fmt"
 	"go/ast"
 	"go/token"
@@ -148,7 +149,13 @@ func (q *queueCtx) config() paths.Config {
 							return true // the helper's own returns were recorded while it was followed
 						}
 					}
-					defer func() { out = append(out, paths.Event{Kind: "RETVAL", Arg: arg, Pos: v.Pos()}) }()
+					var node ast.Node
+					if len(v.Results) == 1 {
+						if t := info.TypeOf(v.Results[0]); t != nil && isBoolType(t) && arg != "true" && arg != "false" {
+							node = in.ExpandValue(v.Results[0]) // `return accepted`: decided by the tests the path already made
+						}
+					}
+					defer func() { out = append(out, paths.Event{Kind: "RETVAL", Arg: arg, Pos: v.Pos(), Node: node}) }()
 				case *ast.CallExpr:
 					sel, ok := ast.Unparen(v.Fun).(*ast.SelectorExpr)
 					if !ok {
@@ -301,6 +308,8 @@ func runC11(p *core.Program, r *core.Report) {
 		}
 		q := &queueCtx{p: p, fi: fi, recv: recvName(fi)}
 		ps, over := paths.Enumerate(fi.Decl.Body, q.config())
+	q.resolveRetvals(ps)
+		q.resolveRetvals(ps)
 		name := "util/queue." + n.Obj().Name() + "." + fi.Obj.Name()
 		pos := p.Pos(fi.Decl.Pos())
 		if over {
@@ -694,5 +703,70 @@ func c11Timeout(p *core.Program, r *core.Report, name string, fi *core.FuncInfo)
 		r.OK("C11.timeout", name, pos, "gives up only when deadline - now <= 0")
 	} else {
 		r.Viol("C11.timeout", name, pos, strings.Join(uniq(why), "; "))
+	}
+}
+
+// resolveRetvals: a returned boolean expression (a flag such as `accepted`, expanded to the test it
+// stands for) is replaced by the value the path's own condition outcomes give it.
+func (q *queueCtx) resolveRetvals(ps []paths.Path) {
+	info := q.fi.Pkg.TypesInfo
+	for _, pa := range ps {
+		for i := range pa {
+			e := &pa[i]
+			if e.Kind != "RETVAL" || e.Node == nil {
+				continue
+			}
+			ex, ok := e.Node.(ast.Expr)
+			if !ok {
+				continue
+			}
+			var eval func(x ast.Expr) (bool, bool)
+			eval = func(x ast.Expr) (bool, bool) {
+				x = ast.Unparen(x)
+				if tv, ok := info.Types[x]; ok && tv.Value != nil && tv.Value.Kind() == constant.Bool {
+					return constant.BoolVal(tv.Value), true
+				}
+				switch v := x.(type) {
+				case *ast.UnaryExpr:
+					if v.Op == token.NOT {
+						b, ok := eval(v.X)
+						return !b, ok
+					}
+				case *ast.BinaryExpr:
+					switch v.Op {
+					case token.LOR:
+						a, ok1 := eval(v.X)
+						if ok1 && a {
+							return true, true
+						}
+						b, ok2 := eval(v.Y)
+						if ok2 && b {
+							return true, true
+						}
+						return false, ok1 && ok2
+					case token.LAND:
+						a, ok1 := eval(v.X)
+						if ok1 && !a {
+							return false, true
+						}
+						b, ok2 := eval(v.Y)
+						if ok2 && !b {
+							return false, true
+						}
+						return true, ok1 && ok2
+					}
+				}
+				if pa[:i].HasArg("COND", condKey(info, q.norm, x, true)) {
+					return true, true
+				}
+				if pa[:i].HasArg("COND", condKey(info, q.norm, x, false)) {
+					return false, true
+				}
+				return false, false
+			}
+			if b, ok := eval(ex); ok {
+				e.Arg = fmt.Sprint(b)
+			}
+		}
 	}
 }
